@@ -17,8 +17,29 @@ pub struct Inv {
     pub at_seq: u64,
 }
 
+/// Ground truth kept by the harness: is `addr` choking the client at time `t`, and has it been
+/// for at least a second (so that nothing about it can still be in flight)? `None` = unknown.
+fn actually_choking(truth: &std::collections::HashMap<String, Vec<(u64, u32, Option<bool>)>>, addr: &str, t: u64) -> Option<bool> {
+    let v = truth.get(addr)?;
+    let conn = v.iter().filter(|x| x.0 <= t).map(|x| x.1).max()?;
+    let evs: Vec<&(u64, u32, Option<bool>)> = v.iter().filter(|x| x.1 == conn && x.0 <= t).collect();
+    let start = evs.first()?.0;
+    match evs.iter().rev().find(|x| x.2.is_some()) {
+        Some((_, _, Some(false))) => Some(false),
+        Some((ms, _, Some(true))) => if *ms + 1_000 <= t { Some(true) } else { None },
+        _ => if start + 1_000 <= t { Some(true) } else { None },
+    }
+}
+
 /// I1..I3 over the manager log. Returns the first violation.
 pub fn check_invariants(o: &Outcome) -> Option<Inv> {
+    // what every scripted peer really sent: (ms, connection, Some(choke?)) per address
+    let mut truth: std::collections::HashMap<String, Vec<(u64, u32, Option<bool>)>> = Default::default();
+    for e in &o.events {
+        if e.conn == 0 { continue; }
+        let st = match &e.kind { EvKind::PeerSent { msg: Some(crate::wire::Msg::Choke), .. } => Some(true), EvKind::PeerSent { msg: Some(crate::wire::Msg::Unchoke), .. } => Some(false), EvKind::PeerSent { .. } | EvKind::PeerGot { .. } => None, _ => continue };
+        truth.entry(e.addr.clone()).or_default().push((e.ms, e.conn, st));
+    }
     let mut prev: Option<Rc<Snapshot>> = None;
     for e in &o.events {
         let (kind, after) = match &e.kind { EvKind::Mgr { kind, after, .. } => (*kind, after), _ => continue };
@@ -37,6 +58,15 @@ pub fn check_invariants(o: &Outcome) -> Option<Inv> {
                     return Some(Inv { sig: "C12:reserved-zero".into(), what: format!("piece {} is Reserved(0) after {} {}", i, kind, e.addr), at_seq: e.seq });
                 }
                 let holder = after.peers.iter().any(|p| p.piece_index == Some(i) && !p.choked);
+                // the manager may believe a peer is not choking us although it is (and has been for
+                // a second): then nobody that can serve the piece has been asked for it
+                if holder && after.peers.iter().filter(|p| p.piece_index == Some(i) && !p.choked).all(|p| actually_choking(&truth, &p.addr, e.ms) == Some(true)) {
+                    return Some(Inv {
+                        sig: "C12:stale-reservation:holder-actually-chokes-us".into(),
+                        what: format!("piece {} is {:?} and assigned only to peer(s) {:?} that the manager believes unchoked, but whose last choke-state message (sent more than 1 s earlier) is Choke or that never unchoked, after {} {}", i, s, after.peers.iter().filter(|p| p.piece_index == Some(i)).map(|p| p.addr.clone()).collect::<Vec<_>>(), kind, e.addr),
+                        at_seq: e.seq,
+                    });
+                }
                 if !holder {
                     let why = match (kind, prev.as_ref().and_then(|p| p.peers.iter().find(|x| x.addr == e.addr)).map(|x| (x.choked, x.piece_index))) {
                         ("RecvUnchoke", Some((false, Some(_)))) => "unchoke-while-unchoked",
@@ -61,7 +91,10 @@ pub fn check_invariants(o: &Outcome) -> Option<Inv> {
             if let Some(p) = after.peers.iter().find(|p| p.addr == e.addr) {
                 let before = prev.as_ref().and_then(|s| s.peers.iter().find(|x| x.addr == p.addr)).and_then(|x| x.piece_index);
                 if let Some(i) = p.piece_index {
-                    if p.piece_index != before || kind == "RecvUnchoke" {
+                    // a new request was handed out: the assignment changed, or the peer really went from
+                    // choking to not choking (a repeated Unchoke hands out nothing)
+                    let was_choked = prev.as_ref().and_then(|s| s.peers.iter().find(|x| x.addr == p.addr)).map(|x| x.choked).unwrap_or(true);
+                    if p.piece_index != before || (kind == "RecvUnchoke" && was_choked) {
                         if !p.pieces[i] {
                             return Some(Inv { sig: "C12:assigned-piece-not-advertised".into(), what: format!("{} was asked for piece {} it never advertised (after {})", p.addr, i, kind), at_seq: e.seq });
                         }
@@ -108,6 +141,7 @@ pub fn gen_hostile_seeder(r: &mut Rng, id: [u8; 20], n: usize, incoming: bool) -
                 c.initial_advert = Some((0..n).map(|_| r.chance(1, 4)).collect());
                 for _ in 0..r.range(1, 3) { c.rebitfield_at.push(r.below(5)); }
                 c.rebitfield_at.sort();
+                c.rebitfield_drops = r.chance(1, 2);
             }
             "flapper"
         }
@@ -176,7 +210,7 @@ pub fn gen_late_data_scenario(r: &mut Rng, seed: u64) -> Scenario {
         add(2 + k, b, "slow-seeder", &mut pdesc);
     }
     let desc = json!({"seed": seed, "family": "late-data-after-reassignment", "piece_length": piece_len, "pieces": n, "target_piece": target, "peers": pdesc});
-    Scenario { cfg: SimCfg { torrent, peers, tracker: vec![], failpoints: None, max_virtual_ms: 60_000, stop_on_extract: true, linger_ms: 100, disk_on: disk_never, seed, tracker_fn: None, driver: None }, desc }
+    Scenario { cfg: SimCfg { torrent, peers, tracker: vec![], failpoints: None, max_virtual_ms: 60_000, stop_on_extract: true, linger_ms: 100, disk_on: disk_never, seed, pre: None, tracker_fn: None, driver: None }, desc }
 }
 
 /// Targeted family: a peer that advertised a single piece re-sends its Bitfield while that piece is
@@ -210,12 +244,52 @@ pub fn gen_rebitfield_scenario(r: &mut Rng, seed: u64) -> Scenario {
     let b2 = b.clone();
     peers.push(PeerSpec { addr: addr(1), id: peer_id(1), entry: Entry::Dialled { from_announce: 0 }, make: Box::new(move |nth| if nth > 1 { None } else { Some(seeder(b2.clone())) }), chunk: 0, pipe: 1 << 20 });
     let desc = json!({"seed": seed, "family": "rebitfield-then-have", "piece_length": piece_len, "pieces": n, "peers": pdesc});
-    Scenario { cfg: SimCfg { torrent, peers, tracker: vec![], failpoints: None, max_virtual_ms: 60_000, stop_on_extract: true, linger_ms: 100, disk_on: disk_never, seed, tracker_fn: None, driver: None }, desc }
+    Scenario { cfg: SimCfg { torrent, peers, tracker: vec![], failpoints: None, max_virtual_ms: 60_000, stop_on_extract: true, linger_ms: 100, disk_on: disk_never, seed, pre: None, tracker_fn: None, driver: None }, desc }
+}
+
+/// Targeted family: a peer with nothing to offer unchokes and chokes us while idle, and only then
+/// reveals a piece by Have (and possibly unchokes again much later).
+pub fn gen_idle_choke_then_have(r: &mut Rng, seed: u64) -> Scenario {
+    let n = r.range(3, 16) as usize;
+    let piece_len = match r.below(2) { 0 => r.range(100, 16000) as usize, _ => 16384 + r.range(1, 20000) as usize };
+    let total = (n - 1) * piece_len + r.range(1, piece_len as u64) as usize;
+    let content = crate::torrent::distinct_content(r, total, piece_len);
+    let torrent = Rc::new(crate::torrent::Torrent::build(piece_len, "out.bin", vec![("out.bin".into(), total)], true, content, "http://sim.invalid/announce"));
+    let mut peers = vec![];
+    let mut pdesc = vec![];
+    let mut a = SeederCfg::honest(peer_id(0), vec![true; n]);
+    a.initial_advert = Some(vec![false; n]);
+    a.unchoke_after_ms = Some(10_000_000); // only the timed actions below
+    let t1 = r.range(50, 1500);
+    let t2 = t1 + r.range(50, 1500);
+    let t3 = t2 + r.range(50, 1500);
+    a.timed = vec![(t1, ChokeAct::Unchoke), (t2, ChokeAct::Choke)];
+    if r.chance(1, 2) { a.timed.push((t3 + r.range(2_500, 6_000), ChokeAct::Unchoke)); }
+    a.timed_haves = vec![(t3, r.usize(n))];
+    a.idle_close_ms = 30_000;
+    pdesc.push(json!({"addr": addr(0), "persona": "idle peer: Unchoke, Choke, then its first Have", "timed": format!("{:?}", a.timed), "have_at_ms": t3}));
+    let a2 = a.clone();
+    peers.push(PeerSpec { addr: addr(0), id: peer_id(0), entry: if r.chance(1, 2) { Entry::Incoming { at_ms: r.range(0, 50) } } else { Entry::Dialled { from_announce: 0 } }, make: Box::new(move |nth| if nth > 1 { None } else { let mut c = a2.clone(); c.incoming = false; Some(seeder(c)) }), chunk: 0, pipe: 1 << 20 });
+    if let Entry::Incoming { .. } = peers[0].entry { let mut c = a.clone(); c.incoming = true; peers[0].make = Box::new(move |nth| if nth > 1 { None } else { Some(seeder(c.clone())) }); }
+    if r.chance(2, 3) {
+        let mut b = SeederCfg::honest(peer_id(1), vec![true; n]);
+        b.unchoke_after_ms = Some(r.range(0, 4000));
+        b.latency_ms = (500, 4000);
+        b.idle_close_ms = 30_000;
+        pdesc.push(json!({"addr": addr(1), "persona": "slow honest seeder"}));
+        let b2 = b.clone();
+        peers.push(PeerSpec { addr: addr(1), id: peer_id(1), entry: Entry::Dialled { from_announce: 0 }, make: Box::new(move |nth| if nth > 1 { None } else { Some(seeder(b2.clone())) }), chunk: 0, pipe: 1 << 20 });
+    }
+    let desc = json!({"seed": seed, "family": "idle-choke-then-have", "piece_length": piece_len, "pieces": n, "peers": pdesc});
+    Scenario { cfg: SimCfg { torrent, peers, tracker: vec![], failpoints: if r.chance(1, 2) { Some(r.next()) } else { None }, max_virtual_ms: 40_000, stop_on_extract: true, linger_ms: 100, disk_on: disk_never, seed, pre: None, tracker_fn: None, driver: None }, desc }
 }
 
 pub fn gen_scenario(r: &mut Rng, seed: u64) -> Scenario {
     if r.chance(1, 8) {
         return gen_late_data_scenario(r, seed);
+    }
+    if r.chance(1, 12) {
+        return gen_idle_choke_then_have(r, seed);
     }
     if r.chance(1, 10) {
         return gen_rebitfield_scenario(r, seed);
@@ -243,7 +317,7 @@ pub fn gen_scenario(r: &mut Rng, seed: u64) -> Scenario {
     }
     let failpoints = if r.chance(2, 3) { Some(r.next()) } else { None };
     let desc = json!({"seed": seed, "piece_length": torrent.piece_len, "pieces": n, "failpoints": failpoints.is_some(), "peers": pdesc});
-    Scenario { cfg: SimCfg { torrent, peers, tracker: vec![], failpoints, max_virtual_ms: 90_000, stop_on_extract: true, linger_ms: 100, disk_on: disk_never, seed, tracker_fn: None, driver: None }, desc }
+    Scenario { cfg: SimCfg { torrent, peers, tracker: vec![], failpoints, max_virtual_ms: 90_000, stop_on_extract: true, linger_ms: 100, disk_on: disk_never, seed, pre: None, tracker_fn: None, driver: None }, desc }
 }
 
 pub fn witness_trace(o: &Outcome, at_seq: u64) -> Vec<String> {
